@@ -197,6 +197,26 @@ class SymExec:
                         choice = _known_variant_test(cond)
                     targets = t["targets"]
                     vals = [v_ for v_, _ in targets]
+                    if choice is None and cond.k == "discr":
+                        # the discriminant of an aggregate built on this path (e.g. the `Some(..)` a
+                        # spliced-in helper returned) is known: only one edge is feasible
+                        v = cond.a
+                        while v.k in ("ref", "cast"):
+                            v = v.a if v.k == "ref" else v.b
+                        if v.k == "agg" and isinstance(v.b, str) and (cond.b or v.a):
+                            adt = cond.b or v.a
+                            named = {v_: fn.prog.variant_by_discr(adt, v_) for v_ in vals}
+                            if all(n is not None for n in named.values()):
+                                hit = [v_ for v_, n in named.items() if n == v.b]
+                                if hit:
+                                    choice = hit[0]
+                                else:
+                                    a_ = fn.prog.find_adt(adt)
+                                    sv = fn.prog.STD_VARIANTS.get(adt)
+                                    allv = ([x["name"] for x in a_["variants"]] if a_ is not None else
+                                            list(sv.values()) if isinstance(sv, dict) else list(sv or []))
+                                    if v.b in allv:       # a variant the `otherwise` edge stands for
+                                        choice = "otherwise"
                     if choice is not None:
                         tgt = None
                         for v_, b2 in targets:
